@@ -45,7 +45,9 @@ def build_program(seed, run, tag=0xC01, overrides=None, prop=PROP):
     if prop == PROP:
         # `autoalias` configuration: shared (heap) objects may sit in aliasing positions; the permitted side
         # effect is recorded on the op (alias_fx) and replayed into the reference model
-        knobs["autoalias"] = rng.random() < 0.12
+        knobs["autoalias"] = rng.random() < 0.18
+        # complete statements as roots: receivers whose clauses are ALREADY non-empty (the state the property stresses)
+        knobs["p_stmt"] = rng.choice([0.0, 0.3, 0.6])
     if overrides:
         knobs.update(overrides)
     env = lang.Env(share_tables=knobs["share_tables"])
@@ -593,7 +595,7 @@ def merge(aggs):
 
 # ------------------------------------------------------------------ tiers / evidence
 TIERS = {
-    "quick": {"runs": 10000, "chunk": 50, "wall_cap": 900},
+    "quick": {"runs": 15000, "chunk": 50, "wall_cap": 900},
     "thorough": {"runs": 200000, "chunk": 200, "wall_cap": 5400},
 }
 
